@@ -32,6 +32,22 @@ theorem numSum_eq' (l : List ℝ) : Num.sum l = l.sum := by
 theorem rpow_two' (x : ℝ) : x ^ (((2 : ℕ) : ℝ)) = x ^ 2 := by
   rw [Real.rpow_natCast]
 
+/-! congruence helpers: the bridging lemmas below compare the regenerated term with the textbook
+    form *up to ring identities under the sums* (so `1 / (e * e)`, `values * weights`, a trailing
+    division instead of a leading factor … still close) -/
+
+theorem sum_zipWith_congr {f g : ℝ → ℝ → ℝ} (h : ∀ a b, f a b = g a b) (as bs : List ℝ) :
+    (List.zipWith f as bs).sum = (List.zipWith g as bs).sum := by
+  rw [show f = g from funext fun a => funext fun b => h a b]
+
+theorem sum_zipWith_swap (f : ℝ → ℝ → ℝ) (as bs : List ℝ) :
+    (List.zipWith f as bs).sum = (List.zipWith (fun b a => f a b) bs as).sum := by
+  rw [List.zipWith_comm]
+
+theorem sum_map_congr {f g : ℝ → ℝ} (h : ∀ a, f a = g a) (as : List ℝ) :
+    (as.map f).sum = (as.map g).sum := by
+  rw [show f = g from funext h]
+
 theorem mean_eq (xs : List ℝ) : mean xs = xs.sum / (xs.length : ℝ) := by
   simp [mean, Gen.arrMeanValue, Np.mean, numSum_eq']
 
@@ -71,18 +87,19 @@ theorem wmean_eq (xs es : List ℝ) :
     wmean xs es = (List.zipWith (fun e x => 1 / e ^ 2 * x) es xs).sum
         / (es.map fun e => 1 / e ^ 2).sum := by
   simp only [wmean, Gen.arrWmean, numSum_eq', List.zipWith_map_left, List.zipWith_map_right,
-    num_mul, num_div, num_pow, num_ofNat, rpow_two', Nat.cast_one]
-  try first
-    | rfl
-    | (congr 2
-       first
-         | (funext e x; ring)
-         | (rw [List.zipWith_comm]; congr 1; funext e x; ring)
-         | (apply List.map_congr_left; intro e _; ring))
+    num_mul, num_div, num_pow, num_ofNat, rpow_two', Nat.cast_one] <;>
+  (congr 1
+   · first
+      | exact sum_zipWith_congr (fun a b => by ring) _ _
+      | (rw [sum_zipWith_swap]; exact sum_zipWith_congr (fun a b => by ring) _ _)
+   · exact sum_map_congr (fun a => by ring) _)
 
 theorem perr_eq (es : List ℝ) : perr es = 1 / Real.sqrt ((es.map fun e => 1 / e ^ 2).sum) := by
-  simp only [perr, Gen.arrPerr, numSum_eq', num_sqrt, num_div, num_pow, num_ofNat, rpow_two',
-    Nat.cast_one]
+  simp only [perr, Gen.arrPerr, numSum_eq', num_sqrt, num_div, num_pow, num_mul, num_ofNat,
+    rpow_two', Nat.cast_one, Real.sqrt_div zero_le_one, Real.sqrt_one] <;>
+  first
+    | rfl
+    | (congr 2; exact sum_map_congr (fun a => by ring) _)
 
 theorem cov1_eq (xs ys : List ℝ) :
     cov1 xs ys = 1 / ((xs.length - 1 : ℕ) : ℝ)
@@ -93,9 +110,14 @@ theorem cov1_eq (xs ys : List ℝ) :
   rw [hz]
   simp only [cov1, Gen.calcCov, mean, Gen.arrMeanValue, numSum_eq', num_mul, num_div, num_sub,
     num_ofNat, Nat.cast_one]
+  have hs : ∀ (f : ℝ → ℝ → ℝ), (∀ a b, f a b = (a - Np.mean xs) * (b - Np.mean ys)) →
+      (List.zipWith f xs ys).sum
+        = (List.zipWith (fun a b => (a - Np.mean xs) * (b - Np.mean ys)) xs ys).sum :=
+    fun f h => sum_zipWith_congr h _ _
+  rw [hs _ (fun a b => by ring)]
   cases xs with
   | nil => simp
-  | cons x xs => simp
+  | cons x xs => simp; try ring
 
 theorem corr_eq (xs ys : List ℝ) : corr xs ys = cov1 xs ys / (std1 xs * std1 ys) := rfl
 
@@ -103,8 +125,10 @@ theorem corr_eq (xs ys : List ℝ) : corr xs ys = cov1 xs ys / (std1 xs * std1 y
 theorem sumPair_eq (xs es : List ℝ) :
     sumPair xs es = (xs.sum, Real.sqrt ((es.map (· ^ 2)).sum)) := by
   simp only [sumPair, Gen.arrSumValue, Gen.arrSumError, numSum_eq', num_sqrt, num_pow, num_mul,
-    num_ofNat, rpow_two']
-  try (congr 3; funext e; ring)
+    num_ofNat, rpow_two', List.zipWith_self] <;>
+  first
+    | rfl
+    | (congr 2; exact sum_map_congr (fun a => by ring) _)
 
 /-- `ExperimentalValueArray.mean()`: mean ± error on the mean -/
 theorem meanPair_eq (xs : List ℝ) : meanPair xs = (mean xs, sem xs) := by
